@@ -30,6 +30,8 @@ type Sched struct {
 	buf  []byte
 	// Snapshots counts goroutine dumps taken (reported in evidence).
 	Snapshots int
+	// FullStacks: keep the frames of every goroutine in the snapshots (default: only where the state needs them)
+	FullStacks bool
 }
 
 // Op is one call issued on its own goroutine.
@@ -151,13 +153,13 @@ func (s *Sched) Dump() []GState {
 	for {
 		n := runtime.Stack(s.buf, true)
 		if n < len(s.buf) {
-			return parseDump(s.buf[:n])
+			return parseDump(s.buf[:n], s.FullStacks)
 		}
 		s.buf = make([]byte, 2*len(s.buf))
 	}
 }
 
-func parseDump(b []byte) []GState {
+func parseDump(b []byte, full bool) []GState {
 	var out []GState
 	for len(b) > 0 {
 		var line []byte
@@ -191,7 +193,7 @@ func parseDump(b []byte) []GState {
 		if i := bytes.IndexByte(b, '\n'); i >= 0 {
 			g.Top = string(b[:i])
 		}
-		if g.State == "semacquire" {
+		if g.State == "semacquire" || full {
 			if i := bytes.Index(b, []byte("\n\n")); i >= 0 {
 				g.Stack = string(b[:i])
 			} else {
@@ -237,6 +239,50 @@ func (s *Sched) Quiesce() ([]GState, error) {
 		}
 		if time.Now().After(deadline) {
 			return nil, &ErrNoQuiescence{Busy: busy}
+		}
+		spins++
+		if spins < 50 {
+			runtime.Gosched()
+		} else {
+			time.Sleep(50 * time.Microsecond)
+		}
+	}
+}
+
+// QuiesceUnless is Quiesce with a second way out: stuck(busy, parked) is asked on every snapshot that still has busy
+// goroutines; once it has answered true on 25 snapshots in a row (at least 1 ms apart) the wait ends with isStuck =
+// true. It is for states that are provably permanent although not parked - e.g. library code that polls with
+// time.Sleep for something only a parked goroutine could provide. The predicate decides, never the clock.
+func (s *Sched) QuiesceUnless(stuck func(busy, parked []GState) bool) (parkedOut []GState, isStuck bool, err error) {
+	deadline := time.Now().Add(QuiesceCap)
+	spins, streak := 0, 0
+	for {
+		gs := s.Dump()
+		var parked, busy []GState
+		for _, g := range gs {
+			if _, old := s.base[g.ID]; old || g.ID == s.ctl {
+				continue
+			}
+			if g.parked() {
+				parked = append(parked, g)
+			} else {
+				busy = append(busy, g)
+			}
+		}
+		if len(busy) == 0 {
+			return parked, false, nil
+		}
+		if stuck != nil && stuck(busy, parked) {
+			streak++
+			if streak >= 25 {
+				return parked, true, nil
+			}
+			time.Sleep(time.Millisecond)
+			continue
+		}
+		streak = 0
+		if time.Now().After(deadline) {
+			return nil, false, &ErrNoQuiescence{Busy: busy}
 		}
 		spins++
 		if spins < 50 {
